@@ -818,6 +818,10 @@ func (v *fnVC) trCall(x *CallE, env *Env) (T, types.Type) {
 		k, _ := v.trAs(x.Args[1], env, mt.Key())
 		md, _, _, _ := v.mapMems(mt)
 		return and(not(eq(m, "0")), sel(sel(v.snapMem(env, md), m), k)), types.Typ[types.Bool]
+	case "rvver": // rvver(x): content version of the reflect storage rooted at x (ghost memory RV)
+		k, _ := v.tr(x.Args[0], env)
+		v.memSrt[rvMem] = "Int"
+		return sel(v.snapMem(env, rvMem), k), types.Typ[types.Int]
 	case "visited": // visited(k): key already produced by the map range of this loop
 		k, _ := v.tr(x.Args[0], env)
 		return sel(sel(v.snapMem(env, visMem), "1"), k), types.Typ[types.Bool]
